@@ -28,10 +28,13 @@ func init() {
 			if tier == "thorough" {
 				ns = rng(1, 250)
 			}
-			return jobsOver("VH_C11_isBitSet_layout", "n", ns)
+			js := jobsOver("VH_C11_isBitSet_layout", "n", ns)
+			// write-side packing for every coil count (cheap)
+			js = append(js, jobsOver("VH_C11_packing", "n", rng(1, 1968))...)
+			return js
 		},
-		Bounds:    map[string]string{"quick": "payload length n in {1,2,3,250}; start, address: all 2^32 pairs; payload bytes symbolic", "thorough": "payload length n in 1..250"},
+		Bounds:    map[string]string{"quick": "lookup: payload length n in {1,2,3,250}; start, address: all 2^32 pairs; payload bytes symbolic. Packing (CoilsToBytes): every coil count 1..1968 with symbolic coil values", "thorough": "payload length n in 1..250"},
 		Outside:   []string{"payloads longer than 250 bytes"},
-		MinCovers: []string{"in-window", "outside-window"},
+		MinCovers: []string{"in-window", "outside-window", "packed"},
 	})
 }
